@@ -746,9 +746,49 @@ fn gen_integer_position(t: &mut Tape) -> Lit {
     Lit { text, expect, family: "integer-position", class: format!("pos{}.{}{}", pos, class, if neg { ".neg" } else if plus { ".plus" } else { "" }), embed: Embed::IntAt(pos) }
 }
 
+/// texts that look like a literal of some family and have NO value in IEC 61131-3: a number with an
+/// exponent inside a duration or a time of day, a decimal comma, digits outside the base, missing
+/// or doubled parts.  The only right answer is a diagnostic (the pinned tree rejects every shape
+/// listed here; shapes it is lenient about - a doubled or trailing underscore - are not listed)
+fn gen_malformed(t: &mut Tape) -> Lit {
+    let e = *t.pick(&["E", "e"]);
+    let es = *t.pick(&["", "+", "-"]);
+    let d = 1 + t.below(9);
+    let unit = *t.pick(&["d", "h", "m", "s", "ms"]);
+    let tp = *t.pick(&["T#", "t#", "TIME#", "T#-"]);
+    let (text, class): (String, &str) = match t.below(22) {
+        0 | 1 | 2 => (format!("{}{}.{}{}{}{}{}", tp, d, t.below(10), e, es, 1 + t.below(5), unit), "duration.exponent"),
+        3 | 4 => (format!("{}#10:20:{}.{}{}{}{}", *t.pick(&["TOD", "TIME_OF_DAY", "tod"]), t.below(60), t.below(10), e, es, 1 + t.below(3)), "tod.exponent"),
+        5 => (format!("DT#2024-02-03-10:20:{}.{}{}{}{}", t.below(60), t.below(10), e, es, 1 + t.below(3)), "dt.exponent"),
+        6 => (format!("{}{},{}{}", tp, d, t.below(10), unit), "duration.decimal-comma"),
+        7 => ((*t.pick(&["2#102", "2#12", "2#1A", "8#8", "8#19", "8#1A", "2#2", "8#78"])).to_string(), "integer.digit-outside-base"),
+        8 => (format!("16#{}", *t.pick(&["G", "FG", "", "-1"])), "integer.digit-outside-base"),
+        9 => (format!("{}{}", d, *t.pick(&[".e5", ".5E", ".5e+", ".5E-", "..0", "."])), "real.incomplete"),
+        10 => (format!("{}{}", *t.pick(&[".", "_"]), d), "number.leading-point-or-underscore"),
+        11 => (format!("{}{}", tp, unit), "duration.no-number"),
+        12 => (format!("{}{}", tp, d), "duration.no-unit"),
+        13 => (format!("{}{}{}{}", tp, d, unit, t.below(10)), "duration.trailing-number"),
+        14 => (format!("{}{}.{}", tp, d, unit), "duration.point-without-fraction"),
+        15 => (format!("{}.{}{}", tp, d, unit), "duration.fraction-without-integer"),
+        16 => (format!("{}{}", *t.pick(&["+-", "--", "-+", "++"]), d), "integer.doubled-sign"),
+        17 => (format!("T#{}{}{}", *t.pick(&["-+", "#", " "]), d, unit), "duration.doubled-prefix-part"),
+        18 => (format!("D#2024-{}", *t.pick(&["1", "01", "01-01-01", "13"])), "date.malformed"),
+        19 => (format!("TOD#{}", *t.pick(&["1:2", "10:20", "10:20:", ":20:30", "10::30"])), "tod.malformed"),
+        20 => (format!("DT#2024-01-01{}", *t.pick(&["", "-10:20", "-10", "T10:20:30", " 10:20:30"])), "dt.malformed"),
+        _ => (format!("{}{}", *t.pick(&["0x", "INT#", "16# ", "BOOL#"]), *t.pick(&["10", "", "FF"])), "integer.foreign-notation"),
+    };
+    // (a few of the generated texts are well-formed by accident - `INT#10`, `BOOL#10` is C09's BOOL# family)
+    let accidental = ["INT#10", "BOOL#10", "BOOL#", "BOOL#FF"].contains(&text.as_str());
+    let text = if accidental { "16#G".to_string() } else { text };
+    Lit { text, expect: Expect::Reject("no literal of IEC 61131-3 is spelled like this".into()), family: "malformed", class: class.to_string(), embed: Embed::Init }
+}
+
 pub fn gen_literal(t: &mut Tape, g: &Gates) -> Lit {
     if t.ratio(1, 8) {
         return gen_integer_position(t);
+    }
+    if t.ratio(1, 12) && g.want("MALFORMED_LITERAL") {
+        return gen_malformed(t);
     }
     match t.below(12) {
         0 | 1 => gen_integer(t),
